@@ -144,19 +144,20 @@ def jobs(tier):
     A(lambda: L.SharedInst([["p"], ["l"]], 8, small=quick))
     if not quick:
         A(lambda: L.SharedInst([["r"], ["f"]], 32))
-        A(lambda: L.SharedInst([["p"], ["l"], ["l"]], 8))
+        A(lambda: L.SharedInst([["p"], ["l"], ["l"]], 8, small=True))
 
     # ---- mode B: bare managers, realistic sizes
     B(lambda: L.EvInst(rand_kinds(1, 3), 8, trigs=[0]))
     B(lambda: L.EvInst(rand_kinds(2, 8), 8, trigs=[0]))
     B(lambda: L.EvInst(rand_kinds(3, 12), 8, trigs=[0], tag="/whole-register writes"))
     B(lambda: L.EvInst(rand_kinds(3, 12), 8, trigs=[0], disciplined=False, tag="/single-word writes"), with_monitor=False)
-    B(lambda: L.EvInst(rand_kinds(4, 20), 8, "little", trigs=[0], tag="/whole-register writes"))
-    B(lambda: L.EvInst(rand_kinds(5, 32), 32, trigs=[0]))
-    B(lambda: L.EvInst(rand_kinds(6, 35), 32, trigs=[0], tag="/whole-register writes"))
+    big = dict(cycles=3000 if quick else 10000)       # many sources: slower steps
+    B(lambda: L.EvInst(rand_kinds(4, 20), 8, "little", trigs=[0], tag="/whole-register writes"), **big)
+    B(lambda: L.EvInst(rand_kinds(5, 32), 32, trigs=[0]), **big)
+    B(lambda: L.EvInst(rand_kinds(6, 35), 32, trigs=[0], tag="/whole-register writes"), **big)
     if not quick:
         B(lambda: L.EvInst(rand_kinds(6, 35), 32, "little", trigs=[0], disciplined=False, tag="/single-word writes"),
-          with_monitor=False)
+          with_monitor=False, **big)
     B(lambda: L.SharedInst([rand_kinds(7, 3), rand_kinds(8, 4), rand_kinds(9, 2)], 8))
     # ---- mode B: clients with their real trigger logic
     B(lambda: mk_timer(8, 8))
@@ -170,7 +171,7 @@ def jobs(tier):
     B(lambda: mk_gpio(3, 32, tristate=True))
     if not quick:
         B(lambda: mk_uart(16, 16, 32))
-        B(lambda: mk_gpio(33, 32))
+        B(lambda: mk_gpio(33, 32), **big)
         B(lambda: mk_timer(16, 8, "little"))
     return J
 
